@@ -207,7 +207,7 @@ fn params_of(b: &Value) -> Vec<u64> {
 /// Each behaviour: {subject, params, init, xs: [...], ys: [...]}; ys[i] is the spec's output after xs[i].
 pub fn replay(args: &[String]) {
 	let rows = read_lines(&args[0]);
-	let mut out = Out::new();
+	let mut out = Sink::new();
 	let mut calls = 0u64;
 	for b in &rows {
 		let subject = b["subject"].as_str().unwrap();
